@@ -13,7 +13,10 @@ use std::{
     sync::atomic::Ordering::*,
 };
 
-use divan::{verif, AllocProfiler};
+use divan::{
+    verif, AllocProfiler, Bencher, Divan,
+    __private::{BenchEntry, BenchEntryRunner, EntryList, EntryLocation, EntryMeta, BENCH_ENTRIES},
+};
 use vharness::{
     allocs::{self, LogInner, LogOuter},
     cfg::{self, Cfg},
@@ -105,9 +108,45 @@ fn real_traffic(seed: u64, len: usize) -> Option<verif::TallyCopy> {
     tally
 }
 
+fn registered_body(bencher: Bencher) {
+    bencher.bench(|| std::hint::black_box(3u64) + 4);
+}
+
+/// The profiler stays a pass-through wrapper whatever the benchmark runner did earlier in the process: `act` = 1 runs
+/// `Divan::test_benches()`, 2 `Divan::list_benches()`, 3 both, over a registry of one trivial benchmark, before the traffic.
+fn runner_action(act: u64) {
+    static ONCE: std::sync::Once = std::sync::Once::new();
+    ONCE.call_once(|| {
+        let e: &'static BenchEntry = Box::leak(Box::new(BenchEntry {
+            meta: EntryMeta {
+                module_path: "sandwichdrv",
+                raw_name: "registered_body",
+                display_name: "registered_body",
+                location: EntryLocation { file: "src/bin/sandwichdrv.rs", line: 1, col: 1 },
+                bench_options: None,
+            },
+            bench: BenchEntryRunner::Plain(registered_body),
+        }));
+        BENCH_ENTRIES.push(Box::leak(Box::new(EntryList::new(e))));
+    });
+    // the runner prints its tree on stdout; every line of it is outside the protocol this driver speaks ("# " prefix not needed:
+    // the reader only looks at known line heads)
+    if act & 1 != 0 {
+        Divan::default().test_benches();
+    }
+    if act & 2 != 0 {
+        Divan::default().list_benches();
+    }
+}
+
 fn run_config(out: &mut dyn Write, line: &str) {
     let c = Cfg::parse(line);
     let id = c.str("id", "0");
+    let act = c.u64("act", 0);
+    if act != 0 {
+        let _ = out.flush();
+        runner_action(act);
+    }
     let threads = c.u64("threads", 64) as usize;
     let waves = c.u64("waves", 4) as usize;
     let len = c.u64("len", 60) as usize;
